@@ -255,20 +255,54 @@ func (k *c13Checker) check(t *aspenkit.ClusterTrace, cp *aspenkit.Checkpoint, re
 				}
 			}
 			k.nLeaseCk++
-			p := 0
-			for _, w := range t.Hist[ks.Name][:cp.HistLen[ks.Name]] {
-				if p < len(notes) && notes[p].Del == w.Del && notes[p].Value == w.Value {
-					p++
-					continue
-				}
-				if w.OK {
-					viol(i, ks.Name, "c13:cluster:leaseholder-write-not-notified", fmt.Sprintf("%s: node %d leads %s and acknowledged write #%d (%q del=%v) but its subscriber was not told", cp.Phase, i+1, ks.Name, w.Seq, w.Value, w.Del), dumps...)
-					break
-				}
+			hist := t.Hist[ks.Name][:cp.HistLen[ks.Name]]
+			if miss := explain(hist, notes); miss >= 0 {
+				w := hist[miss]
+				viol(i, ks.Name, "c13:cluster:leaseholder-write-not-notified", fmt.Sprintf("%s: node %d leads %s and acknowledged write #%d (%q del=%v), but no choice of which unacknowledged writes were applied makes its subscriber's %d notifications for the key contain it in order", cp.Phase, i+1, ks.Name, w.Seq, w.Value, w.Del, len(notes)), dumps...)
 			}
 		}
 	}
 	return ok
+}
+
+// explain decides whether notes (the notifications for one key at its leaseholder) can be
+// the issue order with every acknowledged write present and each unacknowledged write
+// either present or absent (it may or may not have been applied). It returns -1 if so,
+// else the index of the first acknowledged write that cannot be placed.
+func explain(hist []aspenkit.Write, notes []aspenkit.Notification) int {
+	type st struct{ i, p int }
+	memo := map[st]bool{}
+	deepest := -1
+	var rec func(i, p int) bool
+	rec = func(i, p int) bool {
+		if i == len(hist) {
+			return true // surplus notifications are the once/stale checks' business
+		}
+		key := st{i, p}
+		if v, ok := memo[key]; ok {
+			return v
+		}
+		w := hist[i]
+		res := false
+		if p < len(notes) && notes[p].Del == w.Del && notes[p].Value == w.Value && rec(i+1, p+1) {
+			res = true
+		}
+		if !res && !w.OK && rec(i+1, p) {
+			res = true
+		}
+		if !res && w.OK && i > deepest {
+			deepest = i
+		}
+		memo[key] = res
+		return res
+	}
+	if rec(0, 0) {
+		return -1
+	}
+	if deepest < 0 {
+		deepest = 0
+	}
+	return deepest
 }
 
 func layerCluster(h *harness.H) {
